@@ -531,6 +531,9 @@ func c16Concurrent(w *core.W, j int) {
 			w.Violation("C16/read-only-op-mutates/SIG.Verify/buffer", "the signed buffer changed during verification", nil)
 		}
 	}
+	if j%4 == 2 {
+		concurrentRRSIGVerify(w, j/4, "C16/concurrent-verify-fails/RRSIG")
+	}
 }
 
 func init() {
@@ -551,4 +554,55 @@ func init() {
 		CaseTimeout: 0,
 		MaxParallel: 16,
 	})
+}
+
+// concurrentRRSIGVerify: RRSIG.Verify from several goroutines, each with an RRSIG, key and RRset of
+// its own, and all of them on one shared triple as well; every call must succeed.
+func concurrentRRSIGVerify(w *core.W, j int, vkey string) {
+	type triple struct {
+		sig *dns.RRSIG
+		key *dns.DNSKEY
+		set []dns.RR
+	}
+	var ts []triple
+	for t := 0; t < 4; t++ {
+		alg := []uint8{dns.ED25519, dns.ED25519, dns.ECDSAP256SHA256, dns.RSASHA256}[(t+j)%4]
+		zone := fmt.Sprintf("z%d.conc.example.", t)
+		k, err := getKey(alg, algBits[alg][0], zone, 256, 3)
+		if err != nil {
+			return
+		}
+		var set []dns.RR
+		for x := 0; x < 20+10*t; x++ {
+			set = append(set, &dns.A{Hdr: dns.RR_Header{Name: "Host." + zone, Rrtype: dns.TypeA, Class: dns.ClassINET, Ttl: uint32(100 + t)}, A: net.IPv4(192, 0, byte(t), byte(x))})
+		}
+		sig := &dns.RRSIG{Algorithm: alg, KeyTag: k.Key.KeyTag(), SignerName: zone, Inception: 1_700_000_000 + uint32(t), Expiration: 4_000_000_000 - uint32(j)}
+		if err := sig.Sign(k.Priv, set); err != nil {
+			return
+		}
+		ts = append(ts, triple{sig, k.Key, set})
+	}
+	var fails atomic.Int32
+	var first atomic.Value
+	var wg3 sync.WaitGroup
+	for t := 0; t < 8; t++ {
+		wg3.Add(1)
+		go func(t int) {
+			defer wg3.Done()
+			defer func() { recover() }()
+			for it := 0; it < 6; it++ {
+				for _, tr := range []triple{ts[t%len(ts)], ts[0]} {
+					if err := tr.sig.Verify(tr.key, tr.set); err != nil {
+						fails.Add(1)
+						first.CompareAndSwap(nil, fmt.Sprintf("%s: %v", algName(tr.sig.Algorithm), err))
+					}
+				}
+			}
+		}(t)
+	}
+	wg3.Wait()
+	w.Count("concurrent_rrsig_verifications", 1)
+	if n := fails.Load(); n > 0 {
+		w.Violation(vkey, fmt.Sprintf("%d of 96 concurrent RRSIG.Verify calls on valid signatures failed (first: %v)", n, first.Load()), nil)
+	}
 }
